@@ -103,6 +103,12 @@ def build(spec):
                 rk.dev_event(f"tiny_{j} Cmpt Exec", sc.TID_EXEC, ts5)
                 t0 += 8
             t_end = t0
+        if spec.get("plain_dev", True):
+            # a device event (TS1..TS5, TS1 == TS2 as FLEX writes it) whose name carries none of the four
+            # instruction-type keywords
+            t0 = t_end + 4
+            rk.dev_event("DLM Wait", sc.TID_SEND + 11, [t0, t0, t0 + 1, t0 + 2, t0 + 3])
+            t_end = t0 + 3
         pairs = list(rk.events)
         if spec.get("flat_power"):
             for (b, e) in pairs:
@@ -111,6 +117,9 @@ def build(spec):
         for (b, e) in pairs:
             a = b.get("attr") or b.get("args")
             a["usr_note"] = f"n{r}"
+            # user keys whose VALUE is JSON null (directly and inside a nested user dictionary): still user keys
+            a["usr_null"] = None
+            a["usr_nest"] = {"n": None, "k": r}
             b["custom_top"] = 7
             if "attr" in b and "args" not in b and spec.get("both_dicts", True):
                 # a device event that carries BOTH the runtime's `attr` dict and user-supplied `args` keys
@@ -119,7 +128,7 @@ def build(spec):
 
         def host(name, tid, t0, t1, x_form=False, extra=None):
             hu[0] += 1
-            args = {"uid": f"r{r}x{hu[0]}", "usr_note": f"h{r}"}
+            args = {"uid": f"r{r}x{hu[0]}", "usr_note": f"h{r}", "usr_null": None, "usr_nest": {"n": None, "k": r}}
             if extra:
                 args.update(extra)
             if x_form:
@@ -179,7 +188,8 @@ def build(spec):
             dur = (e["ts"] - b["ts"]) if e is not None else b["dur"]
             slices.append({"uid": a["uid"], "rank": r, "name": b["name"], "tid": b["tid"], "ts": b["ts"], "dur": dur,
                            "device": "attr" in b, "file": fname,
-                           "user_keys": {"usr_note": a["usr_note"], "custom_top": 7,
+                           "user_keys": {"usr_note": a["usr_note"], "custom_top": 7, "usr_null": None,
+                                         "usr_nest": {"n": None, "k": r},
                                          **({"usr_args": b["args"]["usr_args"]}
                                             if "attr" in b and "usr_args" in b.get("args", {}) else {})}})
     return files, slices
